@@ -44,9 +44,9 @@ func genFates(t *rapid.T, n int) []string {
 		case 0: // clean
 			f[i] = "ok"
 		case 1: // all lost: budget exceeded
-			f[i] = rapid.SampledFrom([]string{"lost", "acklost"}).Draw(t, "fate")
+			f[i] = rapid.SampledFrom([]string{"lost", "acklost", "stale"}).Draw(t, "fate")
 		default:
-			f[i] = rapid.SampledFrom([]string{"lost", "acklost", "ok", "dup", "lost", "acklost"}).Draw(t, "fate")
+			f[i] = rapid.SampledFrom([]string{"lost", "acklost", "ok", "dup", "lost", "acklost", "stale"}).Draw(t, "fate")
 		}
 	}
 	return f
@@ -171,6 +171,30 @@ func runC17(c c17Case) (r vf.Result) {
 			return extra
 		case "acklost":
 			g.Answer(p) // the gateway processes the request (e.g. hands out a topic ID)
+			return extra
+		case "stale":
+			// the transmission is lost, and a stale acknowledgement of another kind with the same message
+			// ID arrives (a late duplicate from an exchange which used the ID before, e.g. before the
+			// client restarted on the same port): not the acknowledgement this step waits for
+			var wrong byte
+			switch p.Type {
+			case snref.PUBLISH:
+				wrong = snref.PUBCOMP
+				if p.QoS == 1 {
+					wrong = snref.PUBREC
+				}
+			case snref.PUBREL:
+				wrong = snref.PUBACK
+			case snref.SUBSCRIBE:
+				wrong = snref.UNSUBACK
+			case snref.UNSUBSCRIBE:
+				wrong = snref.PUBCOMP
+			case snref.REGISTER:
+				wrong = snref.PUBACK
+			}
+			if wrong != 0 {
+				return append(extra, snref.Pkt{Type: wrong, MsgID: p.MsgID})
+			}
 			return extra
 		case "dup":
 			a := g.Answer(p)
@@ -300,7 +324,7 @@ func runC17(c c17Case) (r vf.Result) {
 func TestC17(t *testing.T) {
 	vf.Check(t, vf.Prop[c17Case]{
 		ID: "C17", Name: "client-qos-under-loss", Bubble: true,
-		Rule: "real client (RetryCount 0-4) against a scripted gateway with a drawn fate for every transmission (original and each retransmission) of every protocol step of Register, Subscribe, Unsubscribe and Publish (QoS 0-3; short, predefined and registered topics): lost / processed but acknowledgement lost / acknowledged / acknowledged twice; plus QoS 2 deliveries from the gateway whose PUBREL is repeated 0-3 times after the exchange completed; a quarter of the calls overlap with a complete QoS 2 delivery from the gateway which carries the call's own message ID. Non-trivial = a plan with at least one loss, or a PUBREL after completion; distinct by case.",
+		Rule: "real client (RetryCount 0-4) against a scripted gateway with a drawn fate for every transmission (original and each retransmission) of every protocol step of Register, Subscribe, Unsubscribe and Publish (QoS 0-3; short, predefined and registered topics): lost / processed but acknowledgement lost / acknowledged / acknowledged twice / lost while a stale acknowledgement of another kind with the same message ID arrives (PUBCOMP for a QoS 2 PUBLISH which awaits PUBREC, PUBREC for a QoS 1 one, PUBACK for a PUBREL, ...); plus QoS 2 deliveries from the gateway whose PUBREL is repeated 0-3 times after the exchange completed; a quarter of the calls overlap with a complete QoS 2 delivery from the gateway which carries the call's own message ID. Non-trivial = a plan with at least one loss, or a PUBREL after completion; distinct by case.",
 		Assumptions: []string{"PUBACKs with a rejecting return code and PUBRELs for message IDs that never existed are not generated", "after a call that the plan makes fail, the rest of the history is not judged"},
 		Gen:         genC17,
 		Run:         runC17,
